@@ -123,7 +123,11 @@ def run_shard(spec, res):
         if dl.over():
             break
         res.evaluations += 1
-        run_case(case_rng(spec['seed'], ID, i), res, i)
+        from kverif.kharness import NonFiniteData
+        try:
+            run_case(case_rng(spec['seed'], ID, i), res, i)
+        except NonFiniteData:
+            res.skip('torch produced non-finite data for finite inputs')
 
 
 def replay(case, res):
